@@ -651,6 +651,120 @@ func c05InputsSecrets(r *vReport, idx *int64) {
 	}
 }
 
+// (d2) the same three references (dispatch input, call input, undeclared) at every other position of a
+// workflow where `inputs` is available: one reference per generated workflow.
+var c05InputPositions = []struct {
+	name  string
+	where string   // "top" (between on: and jobs:), "job" (keys of job j) or "steps" (the steps of job j)
+	lines []string // %s = the placeholder; the reference stands on the LAST line
+}{
+	{"run-name", "top", []string{"run-name: Run %s"}},
+	{"workflow env", "top", []string{"env:", "  E: %s"}},
+	{"workflow concurrency group", "top", []string{"concurrency:", "  group: g-%s"}},
+	{"workflow defaults working-directory", "top", []string{"defaults:", "  run:", "    working-directory: %s"}},
+	{"job name", "job", []string{"    name: N %s"}},
+	{"job if", "job", []string{"    if: %s == 'x'"}},
+	{"job env", "job", []string{"    env:", "      E: %s"}},
+	{"job concurrency group", "job", []string{"    concurrency:", "      group: g-%s"}},
+	{"job environment", "job", []string{"    environment: %s"}},
+	{"job container image", "job", []string{"    container:", "      image: %s"}},
+	{"job output", "job", []string{"    outputs:", "      o: %s"}},
+	{"runs-on", "job-runs-on", []string{"    runs-on: %s"}},
+	{"step name", "steps", []string{"      - run: echo", "        name: %s"}},
+	{"step if", "steps", []string{"      - run: echo", "        if: %s == 'x'"}},
+	{"step env", "steps", []string{"      - run: echo", "        env:", "          E: %s"}},
+	{"step with", "steps", []string{"      - uses: actions/checkout@v4", "        with:", "          ref: %s"}},
+	{"step working-directory", "steps", []string{"      - run: echo", "        working-directory: %s"}},
+}
+
+func c05InputsEverywhere(r *vReport, idx *int64) {
+	type refSpec struct {
+		expr, name string
+		defined    func(call, dispatch int) bool
+		what       string
+	}
+	specs := []refSpec{
+		{"inputs.DIN", "din", func(c, d int) bool { return d == 1 }, "inputs.<dispatch input>"},
+		{"inputs.Cin", "cin", func(c, d int) bool { return c == 1 }, "inputs.<call input>"},
+		{"inputs.iundef", "iundef", func(c, d int) bool { return false }, "inputs.<undeclared>"},
+	}
+	for call := 0; call < 2; call++ {
+		for dispatch := 0; dispatch < 2; dispatch++ {
+			if call == 0 && dispatch == 0 {
+				continue
+			}
+			for order := 0; order < 2; order++ {
+				if order == 1 && (call == 0 || dispatch == 0) {
+					continue
+				}
+				for _, pos := range c05InputPositions {
+					for _, spec := range specs {
+						*idx++
+						if !r.Mine(*idx) {
+							continue
+						}
+						var b strings.Builder
+						line := 1
+						w := func(s string) { b.WriteString(s + "\n"); line++ }
+						refLine := 0
+						wPos := func() {
+							for i, l := range pos.lines {
+								if i == len(pos.lines)-1 {
+									refLine = line
+									l = fmt.Sprintf(l, "${{ "+spec.expr+" }}")
+								}
+								w(l)
+							}
+						}
+						wDispatch := func() {
+							w("  workflow_dispatch:")
+							w("    inputs:")
+							w("      din:")
+							w("        type: string")
+						}
+						w("on:")
+						w("  push:")
+						if dispatch == 1 && order == 0 {
+							wDispatch()
+						}
+						if call == 1 {
+							w("  workflow_call:")
+							w("    inputs:")
+							w("      cin:")
+							w("        type: string")
+						}
+						if dispatch == 1 && order == 1 {
+							wDispatch()
+						}
+						if pos.where == "top" {
+							wPos()
+						}
+						w("jobs:")
+						w("  j:")
+						if pos.where == "job-runs-on" {
+							wPos()
+						} else {
+							w("    runs-on: ubuntu-latest")
+						}
+						if pos.where == "job" {
+							wPos()
+						}
+						w("    steps:")
+						if pos.where == "steps" {
+							wPos()
+						} else {
+							w("      - run: echo")
+						}
+						desc := fmt.Sprintf("call=%d dispatch=%d dispatch-after-call=%d position=%s", call, dispatch, order, pos.name)
+						refs := []c05Ref{{refLine, spec.name, spec.defined(call, dispatch), spec.what + " at " + pos.name}}
+						c05Judge(r, "inputs-everywhere", desc, b.String(), refs, nil)
+					}
+				}
+			}
+		}
+	}
+}
+
 // c05ExprIDs: a step id given (wholly or partly) by an expression: the ids of the job are then not
 // known statically and references to steps after that step are not reported; before it the scope
 // is still exact, and a reference inside the id itself is resolved like any other.
@@ -827,6 +941,7 @@ func TestVerifC05(t *testing.T) {
 	c05MatrixAcrossJobs(r, &idx)
 	c05Positions(r, &idx)
 	c05InputsSecrets(r, &idx)
+	c05InputsEverywhere(r, &idx)
 	c05ExprIDs(r, &idx)
 	c05NeedsProject(t, r, &idx)
 }
